@@ -442,6 +442,18 @@ def wide_scenario(width, seed=0, barrier=False, fail_at=None, mode="all"):
     return sc
 
 
+def detached_output_scenario(seed=0, ms=2300):
+    """C04: an executable that closes (redirects) both of its output streams and then keeps working for a while is still
+    running: neither its dependents nor the next command may start before it has exited."""
+    rng = random.Random(seed)
+    ts = [{"path": "lib"}, {"path": "app", "uses": ["lib"]}, {"path": "tool"}]
+    rng.shuffle(ts)
+    scripts = {"build|lib": [{"op": "out", "text": "lib build starts\n"}, {"op": "close_output"}, {"op": "sleep", "ms": ms}, {"op": "exit", "code": 0}],
+               "test|tool": [{"op": "close_output"}, {"op": "sleep", "ms": ms // 2}, {"op": "exit", "code": 0}]}
+    return {"targets": ts, "commands": ["build", "test", "lint"], "kinds": {}, "fou": False, "scripts": scripts, "mode": "all",
+            "label": "detached-output-%d" % ms}
+
+
 def late_success_scenario(nsib, seed=0, fail_first=True):
     """C06: in one group one executable exits non-zero and the others exit 0 ON THEIR OWN right after it, all of them
     before the run's join loop looks at any result (the loop is parked at its first run.join_next until every member
